@@ -239,6 +239,10 @@ impl<S: BuildHasher + Clone + 'static> ExpirationMap<S> {
         Ok(Some(items))
     }
 
+    pub fn clear(&self) {
+        self.buckets.write().clear();
+    }
+
     pub fn hasher(&self) -> S {
         self.hasher.clone()
     }
